@@ -1815,7 +1815,7 @@ def g_c09(rng, tier, budget):
 
 def g_c15(rng, tier, budget):
     threads = [2, 3, 4, 8, 16, 32, 64]
-    reps = 6 if tier == "quick" else 60
+    reps = 12 if tier == "quick" else 60
     for (variant, be) in (("host", "avx2"), ("noavx2", "sse2"), ("nosse2", "swar")):
         for t in threads:
             for r in range(reps):
